@@ -17,7 +17,7 @@ Fut<V> CoAwaitMove(Tsk<V> t) {
       co_await std::move(t);
       co_return yaclib::Unit{};
     } else {
-      int v = co_await std::move(t);
+      Pay v = co_await std::move(t);
       co_return v;
     }
   } catch (yaclib::ResultError<Err>& e) {
